@@ -20,8 +20,10 @@ Not decided: equality with the true singular values, reconstruction accuracy, Ec
 from __future__ import annotations
 
 from qstatic.dom_sym import sym_quat, labelled, arrays_same, first_diff, SymArr
+from qstatic.src import AnalysisError
 from .common import new_interp, run_guarded, short
-from .common_qsvd import ContractTracer, ref_contract
+from .common_qsvd import (ContractTracer, ref_contract, require_unless_failed, callers_of_real_contract,
+                          static_contract_sites, STRUCTURE_MSG)
 
 LEVEL = "other"
 EXPLANATION = ("Abstract interpretation of classical_qsvd / classical_qsvd_full over symbolic quaternion inputs "
@@ -32,6 +34,7 @@ EXPLANATION = ("Abstract interpretation of classical_qsvd / classical_qsvd_full 
 
 R1 = "C05.D1.bookkeeping"
 R2 = "C05.D2.structure"
+OTHER_COVERED = ("qr_qua", "rand_qsvd", "pass_eff_qsvd")     # typestate runs of C06 / C12
 
 
 def check_svd_outputs(ctx, f, name, cfg, st, out, d, A_ref, m, n, R):
@@ -50,7 +53,7 @@ def check_svd_outputs(ctx, f, name, cfg, st, out, d, A_ref, m, n, R):
         return None
     U, s, V = out
     svds = [e for e in d.events if e[0] == "svd"]
-    ok = len(svds) == 1 and A_ref is not None and arrays_same(svds[0][2], A_ref) and svds[0][3] is True
+    ok = len(svds) == 1 and A_ref is not None and arrays_same(svds[0][2], A_ref) and svds[0][3] in (True, 1)
     ctx.ob(R1, f"{inst}: one LAPACK svd of real_expand(X), full_matrices=True", ok,
            f"LAPACK svd is not called exactly once on real_expand(X) with full_matrices=True ({cfg}): "
            f"{[(e[2].shape, e[3]) for e in svds]}", where=where,
@@ -157,6 +160,24 @@ def run(ctx):
                            where=f_q.where, construct="classical_qsvd differs from classical_qsvd_full truncated to R",
                            loc=f_q.loc())
     n_sites = tracer.emit(ctx, R2)
+    # every other caller of real_contract in the Q-SVD module / utils that no shape run covers: static taint
+    covered = {f_q.where, f_full.where} | {prog.func("decomp.qsvd", n).where for n in OTHER_COVERED}
+    swept = []
+    for fi in callers_of_real_contract(prog, ["decomp.qsvd", "utils"]):
+        if fi.where in covered:
+            continue
+        ctx.touch(fi)
+        swept.append(fi.where)
+        for node, construct, tainted in static_contract_sites(prog, fi):
+            ctx.ob(R2, f"{fi.where} {construct} (static)", not tainted,
+                   STRUCTURE_MSG + " (static taint analysis of a function not covered by the shape runs)",
+                   where=fi.where, construct=construct, loc=fi.loc(node))
+    ctx.notes["real_contract_callers"] = {"interpreted_here": sorted([f_q.where, f_full.where]),
+                                          "interpreted_by_C06_C12": sorted(covered - {f_q.where, f_full.where}),
+                                          "static_taint": swept}
     ctx.notes["real_contract_calls_observed"] = tracer.calls
-    ctx.require_instances(R1, 5 * runs)
-    ctx.require_instances(R2, 4)
+    ctx.require_instances(R1, runs)
+    require_unless_failed(ctx, R1, 5 * runs, (R1,))
+    require_unless_failed(ctx, R2, 2, (R1,))
+    if not any(f.rule == R1 for f in ctx.findings) and tracer.calls < 2 * runs:
+        raise AnalysisError(f"only {tracer.calls} real_contract calls observed in {runs} runs (two contractions per run expected)")
